@@ -1,1 +1,94 @@
-(* C15 -- theorems to be stated here. *)
+(* C15 -- error propagation and data dependence, on the recurrences the models are proved equal to
+   (Props/C02.v, C03.v, C04.v, C06.v).  Sizes: every block has the cipher's block size bs; E, D map
+   blocks to blocks.  No other hypothesis unless stated (injectivity of D where "garbled" needs it). *)
+From BM Require Import Spec Spec_proofs Errprop_proofs.
+
+(* no output block depends on input that comes after it -- all modes, both directions *)
+Theorem C15_causality : forall (E D : block -> block) iv c0 p0 a b,
+  (exists t, cbc_enc_spec E iv (a ++ b) = cbc_enc_spec E iv a ++ t) /\
+  (exists t, cbc_dec_spec D iv (a ++ b) = cbc_dec_spec D iv a ++ t) /\
+  (exists t, pcbc_enc_spec E iv (a ++ b) = pcbc_enc_spec E iv a ++ t) /\
+  (exists t, pcbc_dec_spec D iv (a ++ b) = pcbc_dec_spec D iv a ++ t) /\
+  (exists t, ige_enc_spec E c0 p0 (a ++ b) = ige_enc_spec E c0 p0 a ++ t) /\
+  (exists t, ige_dec_spec D c0 p0 (a ++ b) = ige_dec_spec D c0 p0 a ++ t) /\
+  (exists t, cfb_enc_spec E iv (a ++ b) = cfb_enc_spec E iv a ++ t) /\
+  (exists t, cfb_dec_spec E iv (a ++ b) = cfb_dec_spec E iv a ++ t) /\
+  (exists t, ofb_spec E iv (a ++ b) = ofb_spec E iv a ++ t).
+Proof. exact causality. Qed.
+Print Assumptions C15_causality.
+
+Theorem C15_causality_cfb8 : forall (E : block -> block) s (a b : list N),
+  (exists t, cfb8_enc_spec E s (a ++ b) = cfb8_enc_spec E s a ++ t) /\
+  (exists t, cfb8_dec_spec E s (a ++ b) = cfb8_dec_spec E s a ++ t).
+Proof. exact causality_cfb8. Qed.
+Print Assumptions C15_causality_cfb8.
+
+(* CBC: replacing ciphertext block c by c': earlier blocks and blocks after the next one are the
+   same expressions; block j is D(c) xor chain vs D(c') xor chain; block j+1 is D(c1) xor c vs xor c' *)
+Theorem C15_cbc : forall (D : block -> block) iv a c c' c1 rest,
+  cbc_dec_spec D iv (a ++ c :: c1 :: rest) =
+    cbc_dec_spec D iv a ++ xorb (D c) (cbc_chain iv a) :: xorb (D c1) c :: cbc_dec_spec D c1 rest /\
+  cbc_dec_spec D iv (a ++ c' :: c1 :: rest) =
+    cbc_dec_spec D iv a ++ xorb (D c') (cbc_chain iv a) :: xorb (D c1) c' :: cbc_dec_spec D c1 rest.
+Proof. exact cbc_dec_error. Qed.
+Print Assumptions C15_cbc.
+
+Theorem C15_cbc_bits : forall bs c c' x ch y z, length c = bs -> length c' = bs -> length x = bs ->
+  length y = bs -> length z = bs -> length ch = bs ->
+  xorb (xorb x c) (xorb x c') = xorb c c' /\ (xorb y ch = xorb z ch <-> y = z).
+Proof. intros. split; [eapply cbc_next_block_delta; eauto | eapply block_garbled; eauto]. Qed.
+Print Assumptions C15_cbc_bits.
+
+(* CFB: block j flips exactly the bits of c xor c'; block j+1 is c1 xor E(c) vs c1 xor E(c'); then re-sync *)
+Theorem C15_cfb : forall (E : block -> block) iv a c c' c1 rest,
+  cfb_dec_spec E iv (a ++ c :: c1 :: rest) =
+    cfb_dec_spec E iv a ++ xorb c (E (last a iv)) :: xorb c1 (E c) :: cfb_dec_spec E c1 rest /\
+  cfb_dec_spec E iv (a ++ c' :: c1 :: rest) =
+    cfb_dec_spec E iv a ++ xorb c' (E (last a iv)) :: xorb c1 (E c') :: cfb_dec_spec E c1 rest.
+Proof. exact cfb_dec_error. Qed.
+Print Assumptions C15_cfb.
+
+Theorem C15_cfb_bits : forall bs c c' k, length c = bs -> length c' = bs -> length k = bs ->
+  xorb (xorb c k) (xorb c' k) = xorb c c'.
+Proof. exact cfb_same_block_delta. Qed.
+Print Assumptions C15_cfb_bits.
+
+(* CFB-8: byte j flips the same bits (same keystream byte k), the damage is confined to the next bs
+   bytes (g, g'), everything after decrypts from the same register *)
+Theorem C15_cfb8 : forall bs (E : block -> block) s a c c' mid rest,
+  length s = bs -> 0 < bs -> length mid = bs ->
+  exists g g' k,
+    cfb8_dec_spec E s (a ++ c :: mid ++ rest) = cfb8_dec_spec E s a ++ N.lxor c k :: g ++ cfb8_dec_spec E mid rest /\
+    cfb8_dec_spec E s (a ++ c' :: mid ++ rest) = cfb8_dec_spec E s a ++ N.lxor c' k :: g' ++ cfb8_dec_spec E mid rest /\
+    length g = bs /\ length g' = bs.
+Proof. exact cfb8_dec_error. Qed.
+Print Assumptions C15_cfb8.
+
+(* PCBC: a difference delta in the chaining value S_j shows up, as the same delta, in every later block *)
+Theorem C15_pcbc : forall bs (D : block -> block), (forall x, length x = bs -> length (D x) = bs) ->
+  forall s delta cs, length s = bs -> length delta = bs -> all_len bs cs ->
+  pcbc_dec_spec D (xorb s delta) cs = map (fun p => xorb p delta) (pcbc_dec_spec D s cs).
+Proof. exact pcbc_dec_delta. Qed.
+Print Assumptions C15_pcbc.
+
+(* IGE: with D injective, a difference in the previous plaintext block changes every later block *)
+Theorem C15_ige : forall bs (D : block -> block), (forall x, length x = bs -> length (D x) = bs) ->
+  forall c0 p0 p0' cs,
+  (forall x y, length x = bs -> length y = bs -> D x = D y -> x = y) ->
+  length c0 = bs -> length p0 = bs -> length p0' = bs -> all_len bs cs -> p0 <> p0' ->
+  Forall2 (fun p p' => p <> p') (ige_dec_spec D c0 p0 cs) (ige_dec_spec D c0 p0' cs).
+Proof. exact ige_dec_diverges. Qed.
+Print Assumptions C15_ige.
+
+(* CTR, OFB, BelT-CTR: output = input xor keystream with a keystream that does not depend on the data
+   (Props/C04.v C04_apply_xors: it is a function of the state and the NUMBER of blocks only), hence
+   two inputs differ in the output exactly where they differ *)
+Theorem C15_keystream : forall a b k : list N, length a = length k -> length b = length k ->
+  xorb (xorb a k) (xorb b k) = xorb a b.
+Proof. exact keystream_delta. Qed.
+Print Assumptions C15_keystream.
+
+(* non-vacuity of the PCBC statement: the propagated difference is visible *)
+Example C15_pcbc_example : map (fun p => xorb p [1%N]) [[2%N]; [3%N]] = [[3%N]; [2%N]].
+Proof. reflexivity. Qed.
+Print Assumptions C15_pcbc_example.
